@@ -25,7 +25,7 @@ RULE = ("2 of 3 runs: clock sweep - one bundled tariff x one of the 14 calendar-
         "distinct = (tariff, calendar type, period, start class, day-of-year bucket)")
 PROBES = ["lookups", "near_breakpoint", "season_edge_crossed", "weekday_class_midnight", "year_wrap_crossed", "leap_day",
           "world_runs", "get_prices_start0_later", "get_prices_explicit_start", "demand_charge_query", "energy_cost_checked",
-          "winter_pge", "aware_two_zone_lookup", "explicit_tariff_cost_checked", "price_vector_scribbled", "vector_longer_than_a_year", "host_tz_non_utc", "breakpoint_minute_sweep"]
+          "winter_pge", "aware_two_zone_lookup", "explicit_tariff_cost_checked", "price_vector_scribbled", "vector_longer_than_a_year", "host_tz_non_utc", "breakpoint_minute_sweep", "concurrent_callers", "thread_switches"]
 FAULT_DIMENSION = "environment: host time zone (with DST nights), a working directory holding same-named tariff files with other rates; the simulated clock is swept across the calendar"
 REAL_VS_STUB = "real: TimeOfUseTariff + bundled JSON files, Interface.get_prices/get_demand_charge, analysis.energy_cost/demand_charge, Simulator; reference reads the JSON files itself"
 ASSUMPTIONS = ["prices compared exactly (they are copied from the file, never computed)", "costs within 1e-9 relative"]
@@ -244,6 +244,42 @@ def check(sc):
                             % (sc["tariff"], d.isoformat(), (pb if d is pa else pa).isoformat(), g, e[0]))
                     break
             if out.viol:
+                break
+    # caller threads: one tariff object shared by several request handlers; the seed decides the interleaving of their steps inside the
+    # library (dsim/threads.py); each must get the prices it gets when it asks alone
+    rt = sub(sc["seed"], "threads")
+    if not out.viol and rt.random() < 0.12:
+        from ..threads import Interleaver
+        jobs, alone = [], []
+        for _ in range(rt.choice([2, 2, 3])):
+            d_ = start + dt.timedelta(minutes=period * rt.randrange(0, max(1, n))) + dt.timedelta(days=rt.choice([0, 0, 45, 180]))
+            if rt.random() < 0.5:
+                k_, p_ = rt.randint(2, 12), rt.choice([15, 60, 240, 1440])
+                jobs.append((lambda d_=d_, k_=k_, p_=p_: list(T.get_tariffs(d_, k_, p_))))
+            else:
+                jobs.append((lambda d_=d_: (T.get_tariff(d_), T.get_demand_charge(d_))))
+        try:
+            alone = [j() for j in jobs]
+            res_, info_ = Interleaver(sub(sc["seed"], "interleave"), sut.in_repo).run(jobs)
+        except Exception as x:
+            from ..driver import classify_exception
+            if classify_exception(x) == "harness":
+                raise
+            res_, info_ = [], {"switches": 0, "order": []}
+            out.add("C17/lookup_raises", "%s: %s: %s" % (sc["tariff"], type(x).__name__, str(x)[:120]))
+        out.probe("concurrent_callers")
+        out.probe("thread_switches", info_["switches"])
+        for (kind_, val_), alone_ in zip(res_, alone):
+            if kind_ == "exc":
+                from ..driver import classify_exception
+                if classify_exception(val_) == "harness":
+                    raise val_
+                out.add("C17/concurrent_callers", "%s: threads sharing one tariff object: %s: %s (interleaving %s)"
+                        % (sc["tariff"], type(val_).__name__, str(val_)[:100], info_["order"][:30]))
+                break
+            if val_ != alone_:
+                out.add("C17/concurrent_callers", "%s: threads sharing one tariff object (interleaving %s): one caller got %r, alone it gets %r"
+                        % (sc["tariff"], info_["order"][:30], val_, alone_))
                 break
     out.probe("near_breakpoint", near)
     if n * period > 366 * 1440:
